@@ -357,10 +357,8 @@ class IPVPNBase(Label):
         return not self.__eq__(other)
 
     def __hash__(self) -> int:
-        # _packed includes everything (labels + RD); use _has_addpath as discriminator
-        if self._has_addpath:
-            return hash(self._packed)
-        return hash(b'disabled' + self._packed)
+        # equality goes through index() (the label is not part of a route's identity): so must the hash
+        return hash(self.index())
 
     def __copy__(self) -> Self:
         new = self.__class__.__new__(self.__class__)
